@@ -19,6 +19,15 @@ record type x every kind of target identifier x {add_line, rename} on a fixed ba
 Failures seen after a call that raised are prefixed "after-failed-step-" (state damage by a rejected call is
 C08's subject) and end the history.
 
+Signatures: add-duplicate-accepted-<RT>, rename-duplicate-accepted, add|rename-duplicate-raises-<Class>,
+<invariant>-after-<op> with invariant in {names-holds-non-string, names-duplicate, identifier-carried-by-two-lines,
+identifier-missing-from-names, lookup-misses-name, lookup-returns-wrong-line, try-get-line-disagrees,
+segment-lookup-disagrees, segment-lookup-returns-non-segment, lookup-finds-unused-identifier,
+try-get-line-of-unused-identifier, unused-name-in-use, rename-text-wrong, observation-raises}, foreign-exception.
+On the pinned tree: rename-duplicate-accepted = DESIGN 7 #3; add-duplicate-accepted-O/U, add-duplicate-raises-TypeError
+and foreign-exception (add-O/U TypeError) = #4; lookup-misses-name-after-add-L/C, add-duplicate-accepted-L/C,
+names-duplicate-after-add-L = #20.
+
 NOT CHECKED:
   * identifiers that are only *mentioned* (placeholders / virtual lines): adding or renaming onto them is neither
     required to raise nor to succeed here; rename text is not compared when the new name is mentioned somewhere.
@@ -216,6 +225,7 @@ def oracle(case):
             return []
         ids = ids_in_text(pre, v)
         demand = None      # (what, rt, previous rt) when NotUniqueError is demanded
+        merge_rename = False
         line = None
         rename_check = None
         target_id = None   # identifier this call tries to give to a line
@@ -243,6 +253,8 @@ def oracle(case):
                     prt = ids[new][0][0]
                     if not (lrt in "OU" and prt == lrt):
                         demand = ("rename", lrt, prt)
+                    else:
+                        merge_rename = True
                 elif new not in ids and new != "*" and old is not None and len(ids.get(old, [])) == 1 and H.well_formed(H.join_rec(["S", new, "*"]), "gfa1"):
                     mentioned = set()
                     for t in pre:
@@ -288,6 +300,8 @@ def oracle(case):
             f = F[0]
             head, _, rest = f.partition(":")
             return ["%s%s-after-%s:%s %s" % (pre_, head, H.step_kind(step), rest, where)]
+        if merge_rename and not failed:
+            return []  # documented merge of two groups by renaming: what the merged group holds is not checked here
         if op == "rename" and step[2] == "*" and not failed:
             return []  # a possibly mentioned line made anonymous: what is written from here on is nobody's promise
     return []
